@@ -21,6 +21,9 @@ type Profile struct {
 	NoSlash  bool
 	NoGov    bool
 	NoNative bool
+	// RealSlash: most slashes go through x/staking's Slash (changing the validator's token/share exchange rate) with
+	// everyday fractions, so that rebalances up and down happen at exchange rates != 1
+	RealSlash bool
 }
 
 var Profiles = map[string]Profile{
@@ -42,9 +45,9 @@ var Profiles = map[string]Profile{
 	"gov": {Name: "gov", MaxMag: 9, Weights: map[string]int{
 		"delegate": 15, "undelegate": 6, "redelegate": 4, "claim": 4, "allocate": 6, "block": 20,
 		"slash": 3, "gov": 35, "native": 5, "donate": 1, "unknown": 1}},
-	"staking": {Name: "staking", MaxMag: 9, Weights: map[string]int{
-		"delegate": 18, "undelegate": 10, "redelegate": 6, "claim": 3, "allocate": 4, "block": 22,
-		"slash": 10, "gov": 6, "native": 20, "donate": 0, "unknown": 1}},
+	"staking": {Name: "staking", MaxMag: 9, RealSlash: true, Weights: map[string]int{
+		"delegate": 20, "undelegate": 12, "redelegate": 6, "claim": 3, "allocate": 4, "block": 24,
+		"slash": 9, "gov": 5, "native": 16, "donate": 0, "unknown": 1}},
 }
 
 type Gen struct {
@@ -374,12 +377,21 @@ func (g *Gen) Next() string {
 		case 1:
 			d = g.R.Intn(g.NAll)
 		}
-		return fmt.Sprintf("allocate %d %d %s", g.val(), d, g.logUniform(g.P.MaxMag).String())
+		line := fmt.Sprintf("allocate %d %d %s", g.val(), d, g.logUniform(g.P.MaxMag).String())
+		// sometimes several reward denoms arrive in one allocation (fees in several denoms)
+		for g.R.Intn(3) == 0 {
+			d2 := []int{DenomReward, DenomBond, g.R.Intn(g.NAll)}[g.R.Intn(3)]
+			line += fmt.Sprintf(" %d %s", d2, g.logUniform(g.P.MaxMag).String())
+		}
+		return line
 	case "block":
 		return fmt.Sprintf("block %d", g.blockDt())
 	case "reimport":
 		return "reimport"
 	case "slash":
+		if g.P.RealSlash && g.R.Intn(5) != 0 {
+			return fmt.Sprintf("realslash %d %s", g.val(), []string{"0.01", "0.05", "0.07", "0.333333333333333333", "0.0001", "0.5"}[g.R.Intn(6)])
+		}
 		if g.R.Intn(3) == 0 {
 			return fmt.Sprintf("realslash %d %s", g.val(), g.choice(fractions))
 		}
